@@ -119,9 +119,26 @@ PROPS["C08"] = dict(
                  "State::insert / contains as in the C01 registry contracts; Configuration::run as proved by the C03 unit"],
 )
 
+PROPS["C16"] = dict(
+    level="other",
+    explanation=("Contract part: Loop::execute (real body) tests its condition before every pass and counts completed passes, and the lemma "
+                 "'a loop whose condition is iterations < n and whose body leaves the counter alone makes exactly n passes' (Verus, unbounded); "
+                 "LessThanN::evaluate decides value < n. Completion without error, the balanced stack and the population size of whole template "
+                 "runs are decided only by a bounded native run of the shipped templates."),
+    verus=[dict(name="branch_loop", template="contracts/C03/branch_loop.vrs",
+                expect=["<Loop<P> as Component<P>>::execute", "<Loop<P> as Component<P>>::init", "template::lemma_bounded_loop_makes_exactly_n_passes"]),
+           dict(name="less_than_n", template="contracts/C10/less_than_n.vrs", expect=["impl<P, L> Condition<P> for LessThanN<L>::evaluate"])],
+    kani=[],
+    native=[dict(files=["contracts/C07/whole_run_native.rs"],
+                 harnesses={"c16_native_whole_runs": dict(anchor="whole runs of the shipped templates (completion, iterations, stack, size)",
+                            bound=B + "runs without error, performs exactly the requested iterations, one population at the end, prescribed population size")})],
+    min_obligations={"quick": 5, "thorough": 5},
+    uncovered=["per-pass stack height (only the end of the run is observed)", "the two ACO templates", "other problem instances and parameter sets than the ones run"],
+    assumptions=["abstract-children mirror of Component/Condition; value-state mirror (C01/C02 contracts)"],
+)
+
 NOT_YET = "not claimed yet in this commit: unit under construction (see DESIGN.md §4 for the planned contracts)"
 NOT_APPLICABLE = {
-    "C16": "whole-run property of 21 template compositions of dyn components over State; no function-level contract decides it, and composing per-component stack-effect contracts needs an interpreter of the template tree, i.e. a model (DESIGN.md §6)",
     "C18": "all mechanisms live in State-based execute bodies built from multizip loops and f64 arithmetic; Verus rejects iterator adapters and float negation and treats f64 as uninterpreted, Kani cannot enter State (DESIGN.md §2 facts 7, 19; §6)",
     "C19": "iterator chains, powf and WeightedIndex sampling inside State-based execute bodies; the stated invariants are numerical (DESIGN.md §6)",
     "C20": "energy conservation 'up to rounding' needs real arithmetic over f64 (uninterpreted in Verus) inside State-based execute bodies using .iter().position(closure) (DESIGN.md §6)",
